@@ -127,12 +127,15 @@ Qed.
 (* decompositions.triangular: only LeftT steps, returns (list(reversed(tlist)), diag(localV), None) *)
 Definition tri_result (V : G) (ts : list G) : list G * G * option (list G) :=
   let s := run V (map LeftT ts) in (rev (tlist s), localV s, None).
-(* what Interferometer._decompose emits for it *)
+(* what Interferometer._decompose emits for it (since /repo commit 8725dba):
+   `if mesh == "triangular": BS1, BS2 = [], list(reversed(BS1))` -- the diagonal first, then the inverse
+   factors in the order the decomposition returns them *)
 Definition tri_emitted (V : G) (ts : list G) : list G :=
-  let '(b1, r, b2) := tri_result V ts in assemble b1 r b2.
-(* the order that does reproduce V: diagonal first, then the inverse factors, last-found first *)
-Definition tri_repaired (V : G) (ts : list G) : list G :=
   let '(b1, r, _) := tri_result V ts in assemble [] r (Some (rev b1)).
+(* what it emitted before that commit: the returned triple handed to the rectangular assembly unchanged
+   (T factors first, diagonal last).  Kept only so that the refutation of the old behaviour stays checked. *)
+Definition tri_emitted_old (V : G) (ts : list G) : list G :=
+  let '(b1, r, b2) := tri_result V ts in assemble b1 r b2.
 
 Lemma run_left : forall ts V, tlist (run V (map LeftT ts)) = ts /\ localV (run V (map LeftT ts)) = useq ts * V.
 Proof.
@@ -146,17 +149,17 @@ Proof.
   destruct (H ts (mkSt V [] [])) as [A B]. unfold run. rewrite A, B. split; reflexivity.
 Qed.
 
-Theorem triangular_repaired_assembly : forall V ts, useq (tri_repaired V ts) = V.
+Theorem triangular_assembly : forall V ts, useq (tri_emitted V ts) = V.
 Proof.
-  intros V ts. unfold tri_repaired, tri_result. destruct (run_left ts V) as [A B]. rewrite A, B.
+  intros V ts. unfold tri_emitted, tri_result. destruct (run_left ts V) as [A B]. rewrite A, B.
   unfold assemble. rewrite rev_involutive. simpl. rewrite useq_cons, useq_inv_rev.
   rewrite mul_assoc, mul_inv_l. apply mul_e_l.
 Qed.
 
-(* the emitted order acts as  D * T_1 * ... * T_k  instead *)
-Lemma triangular_emitted_value : forall V ts, useq (tri_emitted V ts) = useq ts * V * lprod ts.
+(* the old order acted as  D * T_1 * ... * T_k  instead *)
+Lemma triangular_old_value : forall V ts, useq (tri_emitted_old V ts) = useq ts * V * lprod ts.
 Proof.
-  intros V ts. unfold tri_emitted, tri_result. destruct (run_left ts V) as [A B]. rewrite A, B.
+  intros V ts. unfold tri_emitted_old, tri_result. destruct (run_left ts V) as [A B]. rewrite A, B.
   unfold assemble. rewrite app_nil_r, useq_app, useq_rev, useq_one. reflexivity.
 Qed.
 
@@ -190,9 +193,37 @@ Proof.
   rewrite <- (mul_e_r U), <- (mul_inv_l (useq fs)), mul_assoc, H2, mul_e_l. reflexivity.
 Qed.
 
+
+(* _rectangular_compact_init: conj(U) is multiplied on the right by R_1, R_2, ... (even diagonals) and on the
+   left by L_1, L_2, ... (odd diagonals) until it is the identity; in time order the interferometer is
+   R_1, R_2, ..., then the left factors last-found first *)
+Lemma conj_inv : forall a, conj (inv a) = inv (conj a).
+Proof.
+  intro a. apply (cancel_l (conj a)). rewrite <- conj_mul, !mul_inv_r. apply conj_e.
+Qed.
+Lemma conj_useq : forall l, Forall (fun f => conj f = inv f) l -> conj (useq l) = inv (lprod l).
+Proof.
+  induction 1 as [|f l Hf Hl IH]; simpl.
+  - rewrite useq_nil, conj_e, inv_e. reflexivity.
+  - rewrite useq_cons, conj_mul, IH, Hf, inv_mul. reflexivity.
+Qed.
+Theorem compact_two_sided_assembly : forall U Ls Rs,
+  Forall (fun f => conj f = inv f) Ls -> Forall (fun f => conj f = inv f) Rs ->
+  useq Ls * conj U * lprod Rs = e -> useq (Rs ++ rev Ls) = U.
+Proof.
+  intros U Ls Rs HL HR H.
+  assert (H3 : inv (lprod Ls) * U * inv (useq Rs) = e).
+  { assert (H2 : conj (useq Ls * conj U * lprod Rs) = e) by (rewrite H; apply conj_e).
+    rewrite !conj_mul, conj_conj, conj_useq, conj_lprod in H2 by assumption. exact H2. }
+  rewrite useq_app, useq_rev.
+  transitivity (lprod Ls * (inv (lprod Ls) * U * inv (useq Rs)) * useq Rs).
+  - rewrite H3, mul_e_r. reflexivity.
+  - rewrite !mul_assoc, mul_inv_r, mul_e_l, <- mul_assoc, mul_inv_l, mul_e_r. reflexivity.
+Qed.
+
 End Group.
 
-(* the emitted triangular order is NOT V in general: already in the additive group of integers *)
-Theorem triangular_emitted_refuted :
-  exists (V : Z) (ts : list Z), useq Z Z.add 0%Z (tri_emitted Z Z.add Z.opp V ts) <> V.
+(* the OLD triangular order was not V in general: already in the additive group of integers *)
+Theorem triangular_old_refuted :
+  exists (V : Z) (ts : list Z), useq Z Z.add 0%Z (tri_emitted_old Z Z.add Z.opp V ts) <> V.
 Proof. exists 0%Z, [1%Z]. vm_compute. discriminate. Qed.
